@@ -173,6 +173,20 @@ func shiftOutputs(w *World, f *ssa.Function) []map[int]ssa.Value {
 				obj = recv
 			}
 			m := map[int]ssa.Value{}
+			at := map[int]*ssa.Call{}
+			later := func(a, b *ssa.Call) bool { // a executes after b on the way to the return
+				if a.Block() == b.Block() {
+					for _, in := range a.Block().Instrs {
+						if in == ssa.Instruction(b) {
+							return true
+						}
+						if in == ssa.Instruction(a) {
+							return false
+						}
+					}
+				}
+				return b.Block().Dominates(a.Block())
+			}
 			instrs(f, func(in ssa.Instruction) {
 				sc, ok := in.(*ssa.Call)
 				if !ok || calleeOf(sc) == nil || len(sc.Call.Args) < 2 {
@@ -185,23 +199,24 @@ func shiftOutputs(w *World, f *ssa.Function) []map[int]ssa.Value {
 				if stripConv(sc.Call.Args[0]) != obj {
 					return
 				}
+				// only setters that are executed on every path to this return
+				if !(sc.Block() == c.Block() || sc.Block().Dominates(c.Block())) {
+					return
+				}
 				for i := 1; i < len(sc.Call.Args); i++ {
 					role := ke.paramRole(g, i)
 					if role == nil {
 						continue
 					}
 					if k, ok := role.Scalar.single(); ok {
-						switch k {
-						case kHZ:
-							m[0] = sc.Call.Args[i]
-						case kX:
-							m[1] = sc.Call.Args[i]
-						case kY:
-							m[2] = sc.Call.Args[i]
-						case kVZ:
-							m[3] = sc.Call.Args[i]
-						case kF:
-							m[4] = sc.Call.Args[i]
+						pos := map[Kind]int{kHZ: 0, kX: 1, kY: 2, kVZ: 3, kF: 4}
+						pi, known := pos[k]
+						if !known {
+							continue
+						}
+						if prev := at[pi]; prev == nil || later(sc, prev) {
+							at[pi] = sc
+							m[pi] = sc.Call.Args[i]
 						}
 					}
 				}
